@@ -484,13 +484,16 @@ def rules(repo=None):
 
 
 EXPLANATION = (
-    "Error-discipline check of the C writer. R1: for both publish paths (roll-over, final close) every H5Dclose/H5Fclose "
-    "of the open data file that can reach the publishing call has its status tested and its failure branch sets "
-    "has_failure before the rename/remove decision; the rename/remove status is examined; the properties-file close is "
-    "examined. R2: the five detected-failure branches (H5Dwrite, H5Fcreate, mkdir, failed publish at roll-over, failed block-index write) set has_failure before returning an error, both public write entry "
-    "points test it first, it is never reset. R3: rename only on the !has_failure branch, remove on the other. R4: no "
-    "I/O-table call in the library has its status discarded or overwritten before a test (two named allow-list entries). "
-    "Decides the error discipline on all paths, NOT what HDF5 does internally after a failed write.")
+    'Error-discipline check of the C writer. R1: for both publish paths (roll-over, final close) every H5Dclose/H5Fclose '
+    'of the open data file that can reach the publishing call has its status tested and its failure branch sets '
+    'has_failure before the rename/remove decision; the rename/remove status is examined; the properties-file close is '
+    'examined. R2: the five detected-failure branches (H5Dwrite, H5Fcreate, mkdir, failed publish at roll-over, failed '
+    'block-index write) set has_failure before returning an error, both public write entry points test it first, it is '
+    'never reset. R3: rename only on the !has_failure branch, remove on the other. R4: no I/O-table call in the library '
+    'has its status discarded or overwritten before a test (two named allow-list entries). R1 also: the failure side of '
+    'the H5Fcreate of drf_properties.h5 reaches its error return only through remove / unlink of that path (guarded only '
+    "by 'did the name exist before'): a failed create leaves no empty file behind. Decides the error discipline on all "
+    'paths, NOT what HDF5 does internally after a failed write.')
 TECHNIQUE = ('clang JSON AST; status-usage classification of every I/O call; CFG must-pass of failure branches before the publish decision')
 ASSUMPTIONS = ["HDF5 flushes buffered data at H5Dclose/H5Fclose and reports failure through their return value",
                "attribute/dataspace/property-list calls do no file I/O (their failure surfaces at the next flush point)",
